@@ -16,14 +16,14 @@ func atoiTrim(s string) (int, bool) {
 func runC07(cfg *config) *Report {
 	rep := newReport("C07", cfg.tier, cfg.seed)
 	r := newRng(cfg.seed + 7000)
-	rep.Rule = "generated cash letters (1-4 bundles, forward or return items, 0-9 addenda A, 0-1 B, 0-12 C/D) whose item sequence numbers are a seeded mix of blank and caller-supplied values (increasing, scattered, or colliding with the values the builder would fill in), built with the real CashLetter.Create(); checked: bundle numbers 1..n, record numbers 1,2,3.. per addendum kind, addenda carry their item's number, supplied numbers keep their value, filled numbers are unique within the bundle; the Lean build model runs on the same trees; non-trivial = some item has >= 2 addenda of one kind or a supplied number; distinct by tree dump"
+	rep.Rule = "generated cash letters (1-4 bundles, forward or return items, 0-9 addenda A, 0-1 B, 0-12 C/D) whose item sequence numbers are a seeded mix of blank and caller-supplied values (increasing, scattered, colliding with the values the builder would fill in, 13-15 digits, or renumbered by the caller between two builds in FRB mode), built with the real CashLetter.Create(); checked: bundle numbers 1..n, record numbers 1,2,3.. per addendum kind, addenda carry their item's number, supplied numbers keep their value, filled numbers are unique within the bundle; the Lean build model runs on the same trees; non-trivial = some item has >= 2 addenda of one kind or a supplied number; distinct by tree dump"
 	n := 200
 	if cfg.tier == "thorough" {
 		n = 5000
 	}
 	var lines, dumps, built []string
 	for i := 0; i < n; i++ {
-		mode := i % 6
+		mode := i % 8
 		maxItems := 4
 		if mode >= 4 {
 			maxItems = 11
@@ -64,6 +64,14 @@ func runC07(cfg *config) *Report {
 					return fmt.Sprintf("%03d", 7+next)
 				case 5: // all supplied, unpadded, widths differ (9, 10, 11, ...): numeric and lexical order disagree
 					return strconv.Itoa(9 + j)
+				case 6: // supplied, 13 to 15 digits (beyond 32 bits), increasing
+					if r.Intn(5) == 0 {
+						return ""
+					}
+					next += 1 + r.Intn(9)
+					return strconv.FormatInt([]int64{2026092900000, 20260929000000, 202609290000000}[r.Intn(3)]+int64(next), 10)
+				case 7: // all blank now; built once, renumbered by the caller, built again (below), in FRB mode
+					return ""
 				default: // scattered
 					if r.Intn(3) == 0 {
 						return ""
@@ -118,21 +126,47 @@ func runC07(cfg *config) *Report {
 				}
 			}
 		}
+		if mode == 7 {
+			// second build after the caller renumbered the items of a built cash letter: the addenda follow
+			setFRB(true)
+			if cl.Create() == nil {
+				for _, b := range cl.Bundles {
+					supplied[b] = nil
+					for j, cd := range b.Checks {
+						cd.EceInstitutionItemSequenceNumber = strconv.Itoa(101 + 3*j)
+						supplied[b] = append(supplied[b], cd.EceInstitutionItemSequenceNumber)
+					}
+					for j, rd := range b.Returns {
+						rd.EceInstitutionItemSequenceNumber = strconv.Itoa(101 + 3*j)
+						supplied[b] = append(supplied[b], rd.EceInstitutionItemSequenceNumber)
+					}
+				}
+				nontrivial = true
+			}
+		}
 		before := dumpFile(f)
 		err = cl.Create()
+		setFRB(false)
 		rep.Evaluations++
 		rep.count(fmt.Sprintf("mode:%d", mode))
 		if nontrivial {
 			rep.nontrivial(before)
 		}
-		lines = append(lines, "buildcl\t"+today()+"\t"+before)
-		dumps = append(dumps, before)
+		// mode 7 runs in FRB mode (whose normalisations the mode-off build model does not apply): predicates only
+		if mode != 7 {
+			lines = append(lines, "buildcl\t"+today()+"\t"+before)
+			dumps = append(dumps, before)
+		}
 		if err != nil {
-			built = append(built, "error")
+			if mode != 7 {
+				built = append(built, "error")
+			}
 			rep.count("create-rejected")
 			continue
 		}
-		built = append(built, "ok # "+dumpFile(f))
+		if mode != 7 {
+			built = append(built, "ok # "+dumpFile(f))
+		}
 		rp := map[string]any{"tree_before_build": before}
 		for bi, b := range cl.Bundles {
 			if n, ok := atoiTrim(b.BundleHeader.BundleSequenceNumber); !ok || n != bi+1 {
